@@ -131,6 +131,10 @@ def nested(rng, depth):
 
 
 def clash_modules(rng):
+    return clash_modules_with_status(rng)[0]
+
+
+def clash_modules_with_status(rng):
     """two or three modules that each declare PRIVATE things under the same names (a structure or word with a different
     layout, a helper function, a constant) and export one public function each; a valid program"""
     n = 2 + rng.below(2)
@@ -138,6 +142,8 @@ def clash_modules(rng):
     mods = []
     total = 0
     for j in range(n):
+        total += ((j + 1) if kind in ("struct", "all") else 0) + (1 if kind in ("word", "all") else 0) \
+            + ((j + 1) if kind in ("fn", "all") else 0) + (10 * (j + 1) if kind in ("const", "all") else 0)
         tys = ["i32", "i64", "u8", "i16"]
         parts = []
         use = []
@@ -169,7 +175,7 @@ def clash_modules(rng):
             mods.append(("main.pn", src))
     if rng.chance(1, 2):
         mods.reverse()
-    return mods
+    return mods, total % 256
 
 
 def cast_programs():
